@@ -91,6 +91,18 @@ def run(chk):
     F = facts_for(chk)
     for short in SPLINES:
         for cls in alg_classes(F, short, ("update", "propagateGrad")):
+            check_class(chk, F, short, cls)
+    chk.floor("C02-R2", 12)
+    chk.floor("C02-R3", 20)
+    chk.floor("C02-R4", 13)
+    chk.not_decided = ["pivot growth / loss of continuity in floating point (C18)", "singular pivots (exact arithmetic assumes nonsingular pivots)"]
+    chk.trusted += ["minimiser characterisation (Schoenberg/Holladay; MINCO Thm 2): interpolation + end conditions + C^(2s-2) piecewise degree 2s-1 polynomial is the unique minimiser",
+                    "exactness of the (block) Thomas recurrences for nonsingular pivots"]
+
+
+def check_class(chk, F, short, cls):
+    if True:
+        if True:
             M = spline_model(F, cls)
             I0, Lc, rows = c01.closure_rows(F, M)
             i = Lc.var
@@ -108,12 +120,6 @@ def run(chk):
                 check_cubic(chk, F, M, I0, rows, i, roles, J, m)
             else:
                 check_block(chk, F, M, rows, i, roles, J, m, remaining)
-    chk.floor("C02-R2", 12)
-    chk.floor("C02-R3", 20)
-    chk.floor("C02-R4", 13)
-    chk.not_decided = ["pivot growth / loss of continuity in floating point (C18)", "singular pivots (exact arithmetic assumes nonsingular pivots)"]
-    chk.trusted += ["minimiser characterisation (Schoenberg/Holladay; MINCO Thm 2): interpolation + end conditions + C^(2s-2) piecewise degree 2s-1 polynomial is the unique minimiser",
-                    "exactness of the (block) Thomas recurrences for nonsingular pivots"]
 
 
 # ---------------------------------------------------------------------------------------------
